@@ -202,7 +202,11 @@ def run(rep):
                 "ints and floats, same-value overrides, $repeat counts); each set written by independent Python writers under all 3^n "
                 "assignments of JSON/YAML/TOML (TOML alternately as inline and [table] form): exit status and -f json bytes must be "
                 "identical across assignments and equal the model's evaluation of the logical layers; plus fixed YAML anchor/merge-key "
-                "and TOML dotted-key/table inputs against their expanded JSON form; non-trivial = >= 2 layers")
+                "and TOML dotted-key/table inputs against their expanded JSON form; aliased subtrees (YAML anchors) patched in one "
+                "place by an upper layer; decode tie: generated YAML (anchors, aliases, chained/list merge keys, every scalar spelling, "
+                "cyclic anchors), JSON (number literals at every boundary) and TOML texts - the third-party decoder's output is mapped by "
+                "the model to what bkl's loader returns; YAML stream-syntax variants vs libyaml; framing tie on line soups; "
+                "non-trivial = >= 2 layers / every decode, stream and framing case")
     rep.proof, rep.broken = proof_step(PID)
     rng = random.Random(rep.seed)
     n = 250 if rep.tier == "quick" else 8000
